@@ -47,3 +47,15 @@ package scenario
 //@ stable BaseScenario.recordedVictimsJobs
 //@ stable BaseScenario.recordedVictimsTasks
 //@ stable BaseScenario.potentialVictimsTasks
+
+// Read-only accessor: collects the tasks of the victim task groups recorded for the given nodes into a new
+// slice. Trusted frame (nothing is written): the body ranges over victimsJobsTaskGroups (a map of slices of
+// cloned jobs) and calls GetAllPodsMap on every clone, whose precondition (no nil pod set) is a property of
+// CloneWithTasks that cannot be carried through the `modifies *` statement operations of the callers.
+//@ func (*ByNodeScenario).VictimsTasksFromNodes
+//@   props C06
+//@   trusted
+//@   note trusted read-only frame: VictimsTasksFromNodes only reads the scenario (maps.Keys / maps.Values / GetAllPodsMap of the victim task groups) and returns a new slice; nothing is claimed about the returned tasks
+//@   requires bns != nil && bns.BaseScenario != nil
+//@   pure
+//@ end
